@@ -36,6 +36,7 @@ pub fn paths_from_env() -> Paths {
 }
 
 pub fn make_ctx(p: &Paths, prop: &str, tier: Tier, seed: u64, shard: usize, nshards: usize) -> Ctx {
+    let shrink_iters = props::find(prop).map(|i| i.shrink_iters).unwrap_or(200);
     let scratch = crate::util::scratch_base().join(format!("{}-{}", prop, std::process::id()));
     let _ = std::fs::create_dir_all(&scratch);
     Ctx {
@@ -52,6 +53,7 @@ pub fn make_ctx(p: &Paths, prop: &str, tier: Tier, seed: u64, shard: usize, nsha
         scratch,
         known: KnownFindings::load(&p.verif),
         replaying: false,
+        shrink_iters,
     }
 }
 
@@ -62,6 +64,10 @@ pub fn shard_main(prop: &str, tier: Tier, seed: u64, shard: usize, nshards: usiz
         return 2;
     };
     install_panic_hook();
+    // do not outlive the parent (a killed run must not leave shards behind)
+    unsafe {
+        libc::prctl(libc::PR_SET_PDEATHSIG, libc::SIGKILL);
+    }
     let p = paths_from_env();
     let ctx = make_ctx(&p, prop, tier, seed, shard, nshards);
     let mut stats = Stats::default();
@@ -147,6 +153,10 @@ pub fn replay_main(prop: &str, file: &Path) -> i32 {
             println!("replay {}: property held (labels {:?})", file.display(), rep.labels);
             0
         }
+        Verdict::Inconclusive(m) => {
+            println!("INCONCLUSIVE: {}", m);
+            2
+        }
         Verdict::Known { id, what } => {
             println!("KNOWN-FINDING: property={} {} [{}]", prop, what, id);
             0
@@ -176,7 +186,12 @@ pub fn run_main(prop: &str, tier: Tier, seed: u64) -> i32 {
     let mut children = Vec::new();
     for i in 0..nshards {
         let out = run_dir.join(format!("shard{}.json", i));
-        let log = std::fs::File::create(run_dir.join(format!("shard{}.log", i))).expect("log");
+        // ragc prints unconditional DEBUG lines on stderr; keep them only on request
+        let log = if std::env::var("VERIF_KEEP_LOGS").is_ok() {
+            std::fs::File::create(run_dir.join(format!("shard{}.log", i))).expect("log")
+        } else {
+            std::fs::OpenOptions::new().write(true).open("/dev/null").expect("/dev/null")
+        };
         let child = Command::new(&exe)
             .args(["shard", prop, "--tier", tier.name(), "--seed", &seed.to_string(), "--shard", &i.to_string(), "--of", &nshards.to_string(), "--out"])
             .arg(&out)
@@ -274,7 +289,9 @@ pub fn run_main(prop: &str, tier: Tier, seed: u64) -> i32 {
     let evdir = p.verif.join("evidence");
     let _ = std::fs::create_dir_all(&evdir);
     std::fs::write(evdir.join(format!("{}.json", prop)), serde_json::to_string_pretty(&evidence).unwrap() + "\n").expect("write evidence");
-    let _ = std::fs::remove_dir_all(&run_dir);
+    if std::env::var("VERIF_KEEP_LOGS").is_err() {
+        let _ = std::fs::remove_dir_all(&run_dir);
+    }
 
     println!(
         "{} {} seed={} shards={}: {} evaluations, {} distinct non-trivial, {:.1}s",
@@ -293,9 +310,22 @@ pub fn run_main(prop: &str, tier: Tier, seed: u64) -> i32 {
         println!("KNOWN-FINDING: property={} {} [{}; reconfirmed on {} case(s)]", prop, what, id, n);
     }
     if !merged.failures.is_empty() {
+        // one line per distinct (stage, message); shards often rediscover the same failure
+        let mut seen: HashSet<(String, String)> = HashSet::new();
+        let mut printed = 0;
         for f in &merged.failures {
+            if !seen.insert((f.stage.clone(), f.message.clone())) {
+                continue;
+            }
+            printed += 1;
+            if printed > 6 {
+                continue;
+            }
             println!("  failure in stage {}: {}", f.stage, f.message);
             println!("VIOLATION property={} replay={}", prop, f.replay_path);
+        }
+        if printed > 6 {
+            println!("  ({} further distinct failures not shown; all replay files are under replays/found/)", printed - 6);
         }
         return 1;
     }
